@@ -1,3 +1,4 @@
+pub mod container;
 pub mod schema;
 pub mod value;
 pub use schema::*;
